@@ -15,7 +15,33 @@ const fn b(world: &'static str, shape: &'static str, quick: u64, thorough: u64) 
     Batch { world, shape, quick, thorough }
 }
 
+/// Every oracle of a world runs in every run of that world, so each check also takes a
+/// small batch of every other shape of its world(s): a defect that one property's own
+/// shapes cannot reach may still break that property in a shape built for another.
 pub fn batches(prop: &str) -> Vec<Batch> {
+    const A_SHAPES: &[&str] = &["mixed", "concurrent", "restart", "crash", "poolchange", "roam", "rhythm", "growth", "wire", "listing", "hostile", "drain", "restart-pair", "images", "acl-http"];
+    const B_SHAPES: &[&str] = &["basic", "faulty", "idreuse", "burst", "sizes", "large", "routes", "cache", "acl", "hostile", "flood", "cookie"];
+    let mut v = own_batches(prop);
+    let in_a = matches!(prop, "C01" | "C02" | "C09" | "C10" | "C12" | "C13" | "C18" | "C20" | "C08" | "C05");
+    let in_b = matches!(prop, "C03" | "C04" | "C06" | "C07" | "C08" | "C14" | "C15" | "C16" | "C05");
+    if in_a {
+        for s in A_SHAPES {
+            if !v.iter().any(|b| b.world == "A" && b.shape == *s) {
+                v.push(b("A", s, 150, 8_000));
+            }
+        }
+    }
+    if in_b {
+        for s in B_SHAPES {
+            if !v.iter().any(|b| b.world == "B" && b.shape == *s) {
+                v.push(b("B", s, if *s == "large" || *s == "burst" { 60 } else { 150 }, 8_000));
+            }
+        }
+    }
+    v
+}
+
+fn own_batches(prop: &str) -> Vec<Batch> {
     match prop {
         "C01" => vec![b("A", "mixed", 2500, 120_000), b("A", "concurrent", 1000, 60_000), b("A", "restart", 500, 60_000), b("A", "crash", 300, 30_000), b("A", "poolchange", 1000, 60_000)],
         "C02" => vec![b("A", "mixed", 1500, 60_000), b("A", "drain", 400, 20_000), b("A", "drain-large", 8, 400)],
